@@ -222,6 +222,9 @@ func cmdCheck(args []string) int {
 	sort.Strings(keys)
 	var results []*FuncResult
 	var toolErrs []string
+	cfg0 := SolverCfg{TimeoutS: 10, WorkDir: filepath.Join(os.TempDir(), fmt.Sprintf("gvc-foreign-%d", os.Getpid())), Seed: seed, Parallel: 12}
+	defer os.RemoveAll(cfg0.WorkDir)
+	var unmasked []string
 	for _, k := range keys {
 		fc := prog.contracts.Funcs[k]
 		fn := prog.findFunc(fc.PkgPath, fc.Key)
@@ -232,11 +235,51 @@ func cmdCheck(args []string) int {
 		if o.only != "" && !strings.Contains(fc.Key, o.only) {
 			continue
 		}
-		r := prog.verifyFunction(fn, fc)
+		// Obligations are assumed once emitted. If one that belongs to another property fails, everything after it
+		// would hold vacuously; such obligations are found first and the function is re-run without assuming them.
+		var noAssume map[string]bool
+		var r *FuncResult
+		for round := 0; round < 4; round++ {
+			r = prog.verifyFunction(fn, fc, noAssume)
+			var foreign []*Obligation
+			for _, ob := range r.Obls {
+				if (ob.Kind == "mon" || ob.Kind == "pre") && !hasProp(ob.Props, o.id) {
+					foreign = append(foreign, ob)
+				}
+			}
+			if len(foreign) == 0 {
+				break
+			}
+			prog.solveAll(foreign, cfg0)
+			changed := false
+			for _, ob := range foreign {
+				if ob.Verdict == "unsat" {
+					continue
+				}
+				base := ob.Name
+				if i := strings.LastIndex(base, "#"); i > 0 {
+					base = base[:i]
+				}
+				if noAssume == nil {
+					noAssume = map[string]bool{}
+				}
+				if !noAssume[base] {
+					noAssume[base] = true
+					changed = true
+					unmasked = append(unmasked, fmt.Sprintf("%s [%s] is not discharged (%s); it is checked under its own property and not assumed here", base, strings.Join(ob.Props, ","), ob.Verdict))
+				}
+			}
+			if !changed {
+				break
+			}
+		}
 		results = append(results, r)
 		for _, e := range r.Errors {
 			toolErrs = append(toolErrs, r.Name+": "+e)
 		}
+	}
+	for _, u := range unmasked {
+		fmt.Println("NOTE: obligation of another property", u)
 	}
 	// select the obligations of this property
 	var obs []*Obligation
